@@ -43,7 +43,7 @@ inline Plan Gen(uint64_t seed)
    GenState g(clients, hosts);
    for (int c=0; c<clients; c++) if ((c < 2)||(cfg.pct(75))) GenConnect(p, g, cfg, fl, c, faultFree, 35);
    p.push_back("step 2");
-   const int nops = 10 + (int) wl.below(wl.oneIn(4) ? 70 : 30);
+   const int nops = Rng(seed, "longrun").oneIn(20) ? (250 + (int) wl.below(350)) : (10 + (int) wl.below(wl.oneIn(4) ? 70 : 30));
    int sinceQuiesce = 0;
    for (int op=0; op<nops; op++)
    {
